@@ -456,7 +456,7 @@ def replay_file(path):
 
 # ------------------------------------------------------------------ one query
 import threading
-_HEAVY_CAP = float(os.environ.get("VP_HEAVY_GB", "44"))   # total address-space budget of concurrently running heavy queries
+_HEAVY_CAP = float(os.environ.get("VP_HEAVY_GB", "60"))   # total address-space budget of concurrently running heavy queries
 _heavy_used = 0.0
 _heavy_cv = threading.Condition()
 
